@@ -35,9 +35,10 @@ for m in MUTANTS:
             cmd += ["--only", m["only"]]
         p = subprocess.run(cmd, capture_output=True, text=True, env=env, cwd=ROOT)
         expect = m.get("expect", 1)
-        ok = p.returncode == expect
+        # a tuple: exit 1 (violation) wanted, exit 2 (undecided - never a false alarm, but a miss) tolerated and listed
+        ok = p.returncode in expect if isinstance(expect, tuple) else p.returncode == expect
         viol = [l for l in p.stdout.splitlines() if l.startswith(("VIOLATION", "UNDECIDED", "CHECKER-ERROR", "KNOWN"))]
-        print("%-50s exit=%d expected=%d %s" % (m["name"], p.returncode, expect, "OK" if ok else "MISMATCH"))
+        print("%-50s exit=%d expected=%s %s" % (m["name"], p.returncode, expect, ("OK" if p.returncode != 2 or expect == 2 else "UNDECIDED (miss)") if ok else "MISMATCH"))
         for l in viol[:3]:
             print("      " + l[:230])
         results.append((m["name"], "ok" if ok else "mismatch"))
